@@ -195,11 +195,13 @@ type instance struct {
 	h     *helium.Helium
 	relay *relayStore
 	subs  map[int]*subscriber
+	dead  bool // the watch has been closed
 }
 
 func (in *instance) apply(ctx context.Context, st step) {
 	switch st.Op {
 	case "closewatch":
+		in.dead = true
 		in.relay.mu.Lock()
 		select {
 		case <-in.relay.kill:
@@ -240,6 +242,58 @@ func (in *instance) apply(ctx context.Context, st step) {
 	}
 }
 
+// judged reports whether the harness expects this instance to converge now: no subscriber on which the
+// loop gets stuck (never reading and not cancelled) and the watch has not been closed.
+func (in *instance) judged() bool {
+	if in.dead {
+		return false
+	}
+	for _, s := range in.subs {
+		s.mu.Lock()
+		stuck := s.mode == "slow" && !s.stopped
+		s.mu.Unlock()
+		if stuck {
+			return false
+		}
+	}
+	return true
+}
+
+// satisfied: every reading subscriber's last status is the registered set and every Unsubscribe has
+// returned with its channel closed.
+func (in *instance) satisfied(reg []string) bool {
+	o := in.observe()
+	for sid, s := range in.subs {
+		s.mu.Lock()
+		live := s.mode == "reader" && !s.stopped && !s.unsub
+		s.mu.Unlock()
+		if live {
+			last, ok := o.Readers[fmt.Sprint(sid)]
+			if !ok || !sameStrings(last, reg) {
+				return false
+			}
+		}
+	}
+	for _, u := range o.Unsubs {
+		if !u["done"] || !u["closed"] {
+			return false
+		}
+	}
+	return true
+}
+
+func sameStrings(a, b []string) bool {
+	if len(a) != len(b) {
+		return false
+	}
+	for i := range a {
+		if a[i] != b[i] {
+			return false
+		}
+	}
+	return true
+}
+
 func (in *instance) observe() obs {
 	o := obs{Readers: map[string][]string{}, Unsubs: map[string]map[string]bool{}}
 	for sid, s := range in.subs {
@@ -265,7 +319,9 @@ func (in *instance) observe() obs {
 }
 
 // runBatch executes the cases of one batch (same length, same global reg/dereg timeline) concurrently.
-func runBatch(t *testing.T, m *etcdv3.Mercury, cli *clientv3.Client, hook *hookKV, ks []*kase) {
+// runBatch executes the cases of one batch concurrently and returns the indexes of the cases in which an
+// instance the harness expected to converge did not do so before the deadline.
+func runBatch(t *testing.T, m *etcdv3.Mercury, cli *clientv3.Client, hook *hookKV, ks []*kase) []int {
 	ctx, cancel := context.WithCancel(context.Background())
 	defer cancel()
 	ins := make([]*instance, len(ks))
@@ -298,8 +354,14 @@ func runBatch(t *testing.T, m *etcdv3.Mercury, cli *clientv3.Client, hook *hookK
 		time.Sleep(100 * time.Millisecond)
 	}()
 	results := make([][]obs, len(ks))
+	failed := make([]bool, len(ks))
+	reg := map[string]bool{}
+	for _, a := range ks[0].Steps[0].Race {
+		reg[a] = true
+	}
 	nsteps := len(ks[0].Steps)
 	wait := time.Duration(ks[0].WaitMs) * time.Millisecond
+	deadline := time.Duration(hx.EnvInt("VERIF_HELIUM_DEADLINE_MS", 6000)) * time.Millisecond
 	time.Sleep(300 * time.Millisecond) // let every stream deliver its initial snapshot
 	hook.mu.Lock()
 	hook.armed = false
@@ -316,6 +378,7 @@ func runBatch(t *testing.T, m *etcdv3.Mercury, cli *clientv3.Client, hook *hookK
 	for si := 0; si < nsteps; si++ {
 		g := ks[0].Steps[si]
 		if g.Reg != "" {
+			reg[g.Reg] = true
 			if _, f, err := m.RegisterService(ctx, g.Reg, 30*time.Second); err == nil {
 				unreg[g.Reg] = f
 			} else {
@@ -323,6 +386,7 @@ func runBatch(t *testing.T, m *etcdv3.Mercury, cli *clientv3.Client, hook *hookK
 			}
 		}
 		if g.Dereg != "" {
+			delete(reg, g.Dereg)
 			if f := unreg[g.Dereg]; f != nil {
 				f()
 				delete(unreg, g.Dereg)
@@ -334,8 +398,10 @@ func runBatch(t *testing.T, m *etcdv3.Mercury, cli *clientv3.Client, hook *hookK
 				if o.Put != "" {
 					ops = append(ops, clientv3.OpPut("/services/"+o.Put, ""))
 					txnKeys[o.Put] = true
+					reg[o.Put] = true
 				} else {
 					ops = append(ops, clientv3.OpDelete("/services/"+o.Del))
+					delete(reg, o.Del)
 				}
 			}
 			if _, err := cli.Txn(ctx).Then(ops...).Commit(); err != nil {
@@ -345,18 +411,51 @@ func runBatch(t *testing.T, m *etcdv3.Mercury, cli *clientv3.Client, hook *hookK
 		for i, k := range ks {
 			ins[i].apply(ctx, k.Steps[si])
 		}
-		time.Sleep(wait)
+		// No fixed sleep and no judgement from one sample: poll until every instance that is expected to
+		// converge has done so (every reading subscriber's last status = the registered set, every
+		// Unsubscribe returned and its channel closed) or a deadline of several push intervals passes.
+		// Instances that are expected NOT to converge (stuck subscriber, closed watch) are observed after
+		// at least `wait` (a little more than one interval).
+		want := []string{}
+		for a := range reg {
+			want = append(want, a)
+		}
+		sort.Strings(want)
+		start := time.Now()
+		for {
+			time.Sleep(50 * time.Millisecond)
+			el := time.Since(start)
+			all, unjudged := true, false
+			for i := range ks {
+				if !ins[i].judged() {
+					unjudged = true
+				} else if !ins[i].satisfied(want) {
+					all = false
+				}
+			}
+			if el >= deadline || (all && el >= 300*time.Millisecond && (!unjudged || el >= wait)) {
+				break
+			}
+		}
 		for i := range ks {
+			if ins[i].judged() && !ins[i].satisfied(want) {
+				failed[i] = true
+			}
 			results[i] = append(results[i], ins[i].observe())
 		}
 	}
+	bad := []int{}
 	for i, k := range ks {
+		if failed[i] {
+			bad = append(bad, i)
+		}
 		k.Impl = map[string]any{"obs": results[i]}
 		// release everything this instance may still be blocked on
 		for _, s := range ins[i].subs {
 			s.cancel()
 		}
 	}
+	return bad
 }
 
 var addrs = []string{"10.0.0.1:5001", "10.0.0.2:5001", "10.0.0.3:5001"}
@@ -605,7 +704,41 @@ func TestGen(t *testing.T) {
 		for _, k := range ks {
 			k.WaitMs = waitMs
 		}
-		runBatch(t, m, cli, hook, ks)
+		bad := runBatch(t, m, cli, hook, ks)
+		// Before anything is reported as not converged the same timeline is re-run with fresh helium
+		// instances, up to 3 times; only a case that fails every time is judged. A case that passes on a
+		// re-run is classed `timing-off` (its passing observations are kept, it is not judged); when more
+		// than maxRetry cases of a batch fail, the others are classed `unconfirmed`.
+		const maxRetry = 4
+		if len(bad) > maxRetry {
+			for _, i := range bad[maxRetry:] {
+				ks[i].Impl.(map[string]any)["unconfirmed"] = true
+			}
+			bad = bad[:maxRetry]
+		}
+		for attempt := 1; attempt <= 3 && len(bad) > 0; attempt++ {
+			rerun := make([]*kase, len(bad))
+			for j, i := range bad {
+				c := *ks[i]
+				c.Impl = nil
+				rerun[j] = &c
+			}
+			still := runBatch(t, m, cli, hook, rerun)
+			stillSet := map[int]bool{}
+			for _, j := range still {
+				stillSet[j] = true
+			}
+			next := []int{}
+			for j, i := range bad {
+				ks[i].Impl = rerun[j].Impl
+				if stillSet[j] {
+					next = append(next, i)
+				} else {
+					ks[i].Impl.(map[string]any)["timing_off"] = attempt
+				}
+			}
+			bad = next
+		}
 		for _, k := range ks {
 			out.Emit(k)
 		}
